@@ -9,7 +9,7 @@ requests on the same and on other endpoints, and no request leaves an internal l
 What is proved here
   (A) exactly, on facts regenerated from the Go sources on every run (Gen.LockCalls, Gen.Listeners, Gen.NilDerefs):
       no method of dkg.Process, echoBroadcast, dispatcher, BoltStore, appendStore, schemeStore, callbackStore,
-      beacon.Handler, core.BeaconProcess, core.DrandDaemon re-acquires (directly or through calls on its own
+      beacon.Handler, core.BeaconProcess, core.DrandDaemon, http.DrandHandler re-acquires (directly or through calls on its own
       receiver) a mutex it holds; every acquisition is released on every path; the explicitly released regions of
       the peer-facing handlers contain only calls reviewed as non-panicking; the peer-facing listener installs the
       recovery interceptor for unary and stream calls, the control listener installs none.
@@ -52,6 +52,7 @@ def peerFns : List Fn :=
   [.Process_BroadcastDKG, .Process_startDKGExecution, .echoBroadcast_Stop, .BeaconProcess_ChainInfo,
    .BeaconProcess_PublicRandStream, .BeaconProcess_SyncChain, .DrandDaemon_getBeaconProcessByID, .DrandDaemon_readBeaconID]
 
+set_option maxRecDepth 65536 in
 /-- the explicitly released critical sections of those functions, with every call made inside them -/
 theorem tie_explicit_regions :
     ((explicitRegions.filter fun a => peerFns.contains a.fn).map fun a => (fnName a.fn, mxName a.mutex, a.regionCalls)) =
@@ -66,14 +67,17 @@ theorem tie_explicit_regions :
 
 /-! ## (A) lock discipline, decided on the regenerated relation -/
 
+set_option maxRecDepth 65536 in
 /-- **c14_no_self_deadlock**: no method holds a mutex and reaches — directly or through any chain of calls on its
 own receiver, on the same goroutine — a Lock/RLock of the same mutex in a combination that blocks
 (Lock→Lock, Lock→RLock, RLock→Lock). -/
 theorem c14_no_self_deadlock : selfDeadlocks = [] := by decide
 
+set_option maxRecDepth 65536 in
 /-- RLock→RLock re-entries (they block only when a writer is queued in between) — reported separately: none. -/
 theorem c14_read_reentries : readReentries = [] := by decide
 
+set_option maxRecDepth 65536 in
 /-- **c14_locks_released**: every acquisition is released by a deferred unlock, or explicitly on every path: no
 return statement and no function end is reached with an explicitly released mutex still held. -/
 theorem c14_locks_released :
@@ -83,11 +87,13 @@ theorem c14_locks_released :
 them panics for any input (`len`, logger methods, `(*Handler).Store` on a handler checked non-nil just before) -/
 def reviewedRegionCalls : List String := ["len", "bp.log.Named", "logger.Errorw", "b.Store"]
 
+set_option maxRecDepth 65536 in
 /-- a panic between `Lock()` and an explicit `Unlock()` would be recovered by the interceptor with the mutex still
 held; the explicit regions of the peer-facing handlers contain only reviewed calls -/
 theorem c14_peer_regions_panic_free :
     ∀ a ∈ explicitRegions, peerFns.contains a.fn = true → ∀ c ∈ a.regionCalls, c ∈ reviewedRegionCalls := by decide
 
+set_option maxRecDepth 65536 in
 /-- Non-vacuity of the detector, and the defect this project repaired in /repo (commit "fix: Packet no longer
 self-deadlocks…"): with the pre-fix fact `Packet holds d.lock (deferred) and calls BroadcastDKG` the relation contains
 the forbidden pair, because `BroadcastDKG` locks `d.lock`. -/
